@@ -74,7 +74,7 @@ CASE_RE = re.compile(r'^<<"CASE", (".*")>>$')
 
 
 def run_tlc(prop, module, cfg, workers=8, timeout=600, emit_to=None, extra_env=None, java_opts=None,
-            simulate=None, expect_violation=False, heap="4g"):
+            simulate=None, expect_violation=False, heap="4g", tlc_args=None):
     """Runs TLC. Returns dict(states, transitions, ok, out, violated, cases)."""
     wd = workdir(prop)
     md = os.path.join(wd, "md_%s_%d" % (os.path.basename(cfg), os.getpid()))
@@ -86,6 +86,8 @@ def run_tlc(prop, module, cfg, workers=8, timeout=600, emit_to=None, extra_env=N
             "-config", cfg]
     if simulate:
         cmd += ["-simulate", simulate]
+    if tlc_args:
+        cmd += tlc_args
     cmd += [os.path.join(SPEC, module + ".tla")]
     t0 = time.time()
     env = dict(os.environ)
@@ -172,13 +174,25 @@ TRACE_JAVA = ["-Dtlc2.tool.queue.IStateQueue=StateDeque"]
 UNMATCHED_RE = re.compile(r"TRACE-REJECTED matched=(\d+) of (\d+)")
 
 
-def validate_trace(prop, trace_module, trace_cfg, trace_file, timeout=900, heap="4g"):
-    """TLC trace validation. Returns dict(accepted, matched, total, out)."""
+def validate_trace(prop, trace_module, trace_cfg, trace_file, timeout=900, heap="4g", silent=False):
+    """TLC trace validation. Returns dict(accepted, matched, total, out).
+
+    silent=True: the trace spec takes unlogged (silent) steps, e.g. linearisation points; reaching the end of the recorded
+    events is witnessed by the violation of the invariant NotDone (l <= Len(Rec)); if TLC exhausts the state space without
+    violating it the trace is rejected and the POSTCONDITION prints the highest event index reached."""
     cfg = os.path.join(SPEC, trace_cfg)
     r = run_tlc(prop + "/v", trace_module, cfg, workers=1, timeout=timeout, extra_env={"TRACE": trace_file},
-                java_opts=TRACE_JAVA + ["-Xss1g"], expect_violation=True, heap=heap)
+                java_opts=TRACE_JAVA + ["-Xss1g"], expect_violation=True, heap=heap,
+                tlc_args=["-difftrace"] if silent else None)
     out = r["out"]
     m = UNMATCHED_RE.search(out)
+    if silent:
+        total = sum(1 for _ in open(trace_file))
+        if "Invariant NotDone is violated" in out or (r["violated"] and "NotDone" in r["violated"]):
+            return dict(accepted=True, matched=total, total=total, out=out, states=r["states"])
+        if m:
+            return dict(accepted=False, matched=int(m.group(1)), total=int(m.group(2)), out=out, states=r["states"])
+        raise ToolError("trace validation (silent mode) gave no verdict on %s:\n%s" % (trace_file, out[-3000:]))
     if "TRACE-ACCEPTED" in out and not m:
         am = re.search(r"TRACE-ACCEPTED events=(\d+)", out)
         n = int(am.group(1)) if am else 0
@@ -267,9 +281,9 @@ class Check:
             c[k] = c.get(k, 0) + v
         return rep
 
-    def validate(self, trace_module, trace_cfg, trace_file, key, timeout=900):
+    def validate(self, trace_module, trace_cfg, trace_file, key, timeout=900, silent=False):
         rows = sum(1 for _ in open(trace_file))
-        v = validate_trace(self.prop, trace_module, trace_cfg, trace_file, timeout=timeout)
+        v = validate_trace(self.prop, trace_module, trace_cfg, trace_file, timeout=timeout, silent=silent)
         self.trace_events += rows
         if v["accepted"]:
             self.traces += 1
@@ -290,13 +304,13 @@ class Check:
                                                     previous_event=prev)))
         return v
 
-    def canary_trace(self, trace_module, trace_cfg, trace_file, mutate):
+    def canary_trace(self, trace_module, trace_cfg, trace_file, mutate, silent=False):
         """Corrupt one recorded field; the trace spec must reject it. Otherwise the binding is decorative."""
         evs = read_ndjson(trace_file)
         where = mutate(evs)
         p = trace_file.replace(".ndjson", ".canary.ndjson")
         write_ndjson(p, evs)
-        v = validate_trace(self.prop, trace_module, trace_cfg, p)
+        v = validate_trace(self.prop, trace_module, trace_cfg, p, silent=silent)
         if v["accepted"]:
             raise ToolError("canary: %s accepted a corrupted trace (%s) — spec not bound to the code" % (trace_module, where))
         self.canaries += 1
